@@ -17,7 +17,7 @@ import vlib
 PROPS = ("C20", "C21", "C22")
 KIND_PROP = {
     "panic": "C20",
-    "fields": "C22", "repack": "C22", "accept-nonlayout": "C22",
+    "fields": "C22", "repack": "C22", "accept-nonlayout": "C22", "body-offset": "C22",
     "bytes-header": "C21", "bytes-body": "C21", "rt-panic": "C21", "rt-reject": "C21",
     "rt-fields": "C21", "short-dec": "C21", "short-enc": "C21",
 }
@@ -62,10 +62,11 @@ def signature(f):
         if cls in ("long-header-truncated", "auth-method-len-overflow"):
             return "C20/panic/" + cls
         return "C20/panic/%s/%s" % (cls, tn)
+    if k == "body-offset":
+        # the decoded packet is exactly the layout applied two octets early: the body was sliced at
+        # the offset derived from the announced length, not from the header form present
+        return "C22/body-offset/long-form-small-length"
     if k in ("fields", "repack", "accept-nonlayout"):
-        if cls == "long-form-small-length":
-            # body sliced at the offset derived from the announced length, not from the form present
-            return "C22/body-offset/long-form-small-length"
         return "C22/%s/%s/%s" % (k, tn, fld or cls)
     if k.startswith("short-"):
         return "C21/short-topic/" + k
@@ -103,8 +104,8 @@ class Acc:
             key = (k, f.get("cls", ""), tname(f.get("t", -1)))
             self.info[key] = self.info.get(key, 0) + n
             return
-        if k in HARNESS_KINDS:
-            self.harness.append(f)
+        if k in HARNESS_KINDS or k not in KIND_PROP:
+            self.harness.append(f)      # (an unknown kind is a harness/spec version mismatch)
             return
         s = signature(f)
         e = self.findings.setdefault(s, dict(n=0, ex=f, kind=k, via=via))
@@ -396,6 +397,23 @@ def run(prop, tier, replay=None):
     for (k, cls, tn), n in sorted(acc.info.items()):
         print("info: acceptance difference %s/%s/%s x%d (no property speaks about it)" % (k, cls, tn, n))
 
+    if replay:
+        # a replay re-judges one stored input: it neither rewrites replays/ nor the evidence file
+        import re
+        known = [k["sig"] for k in vlib.load_findings().get("known", []) if k.get("property") == prop]
+        rc = 0
+        for v in violations:
+            if any(re.fullmatch(k, v["sig"]) for k in known):
+                print("KNOWN-FINDING: property=%s [sig=%s] %s" % (prop, v["sig"], v["what"]))
+            else:
+                rc = 1
+                print("VIOLATION property=%s replay=%s\n  sig=%s %s" % (prop, replay, v["sig"], v["what"]))
+        if acc.harness:
+            print("INCONCLUSIVE property=%s: oracle/harness disagreement: %s" % (prop, json.dumps(trim(acc.harness[0]))[:600]))
+            return 2 if rc == 0 else rc
+        if not violations:
+            print("replay: the stored input no longer violates %s" % prop)
+        return rc
     rc, n_new, n_known = vlib.verdict(prop, violations)
     nontrivial = {s for s in acc.seen if s[0] == "vec" or s[2] in (1, 2)}
     coverage = dict(
@@ -411,11 +429,11 @@ def run(prop, tier, replay=None):
              "outcome) triples counted by the trace spec plus distinct (type, class, outcome) triples of the "
              "replayed vectors; non-trivial = the real decoder accepted (fields compared) or panicked"
              % ("all 2^24+2^16+2^8+1" if exhaustive and prop != "C21" else "all of length <= 2, all with the 0x01 marker, a seeded sample of the rest"),
-        exhaustive=bool(exhaustive) and not replay,
+        exhaustive=bool(exhaustive),
         vectors_replayed_on_impl=acc.replayed, records_judged_by_tlc=acc.judged,
         accepted_by_real_decoder=acc.accepted, panics_observed=acc.panics,
         tlc_runs=acc.tlc_runs[:40], acceptance_differences={"/".join(k): n for k, n in acc.info.items()},
-        samples=acc.samples[:6] or [dict(note="replay run")],
+        samples=acc.samples[:6],
     )
     if acc.states == 0 or acc.transitions == 0:
         coverage["states"], coverage["transitions"] = max(acc.states, 1), max(acc.transitions, 1)
